@@ -5,11 +5,12 @@
     model table [t]; [wf t] says the column store is rectangular with distinct
     names.  The [spec_*] functions (Spec/TableSpec.v) are list comprehensions
     over the list of rows. *)
-From Coq Require Import Permutation Sorting.Sorted.
-From CG3 Require Import Lib.PyZ Lib.Chars Lib.StableSort Lib.Val Model.Csv Model.Table Model.TableRun
+From Coq Require Import Permutation Sorting.Sorted QArith.
+From CG3 Require Import Lib.PyZ Lib.Chars Lib.StableSort Lib.Val Model.Csv Model.Table Model.TableLoad Model.TableRun
      Spec.TableSpec Proofs.TableBase Proofs.CsvProofs Proofs.TableProofs Proofs.TableSortProofs
-     Proofs.TableOpsProofs.
+     Proofs.TableOpsProofs Proofs.TableLoadProofs.
 Import ListNotations.
+Open Scope Z_scope.
 
 (** ---------------------------------------------------------------- joins *)
 
@@ -70,12 +71,17 @@ Theorem reverse_key_int : forall x y,
   cell_cmp (reverse_cell (CI x)) (reverse_cell (CI y)) = cell_cmp (CI y) (CI x).
 Proof. exact reverse_int_cmp. Qed.
 
+(** floats are negated; exact for the decimals repr() shows (no trailing zero in the mantissa) *)
+Theorem reverse_key_float : forall m1 e1 m2 e2, ((dec_q m1 e1 == dec_q m2 e2)%Q -> e1 = e2) ->
+  cell_cmp (reverse_cell (CF m1 e1)) (reverse_cell (CF m2 e2)) = cell_cmp (CF m2 e2) (CF m1 e1).
+Proof. exact reverse_float_cmp. Qed.
+
 Theorem reverse_key_rank : forall col x y, In x col -> In y col ->
   cell_cmp (neg_rank_cell col x) (neg_rank_cell col y) = cell_cmp y x.
 Proof. exact neg_rank_reverses. Qed.
 
 (** sorted(columns=, reverse=), every table and every argument on which the model
-    succeeds (int / str / bool key columns, any of them in reverse=, alone or as
+    succeeds (int / float / str / bool key columns, any of them in reverse=, alone or as
     one key of several): header and row count unchanged and the rows are
     sorted(rows, key tuple, per-column reverse) of a plain list of rows -- THE
     stable sort, see the four theorems below *)
@@ -83,6 +89,7 @@ Theorem sorted_eq_spec_sorted : forall t columns reverse t',
   wf t -> (hdr t = [] -> nrows t = 0%nat) -> sorted t columns reverse = Ok t' ->
   let cr := sort_columns t columns reverse in
   NoDup (snd cr) ->
+  (forall c, In c (snd cr) -> In c (fst cr) -> dec_normal_col (col_of t c)) ->
   hdr t' = hdr t /\ wf t' /\ nrows t' = nrows t /\
   rows t' = spec_sorted (hdr t) (rows t) (fst cr) (rev_flags (fst cr) (snd cr)).
 Proof. exact sorted_is_stable_sort. Qed.
@@ -108,7 +115,12 @@ Theorem spec_sorted_characterised : forall h a columns revs l,
   l = spec_sorted h a columns revs.
 Proof. exact spec_sorted_unique. Qed.
 
-(** ---------------------------------------------------------------- selection, counting, derivation *)
+(** ---------------------------------------------------------------- selection, counting, derivation
+
+    [coerce_col v = v] in the three derivation theorems says that the new column
+    does not mix ints with floats (numpy would hold such a list as floats); it
+    holds e.g. when no cell or every cell is a float ([coerce_col_id],
+    [coerce_col_id_float] in Proofs/TableOpsProofs.v). *)
 
 Theorem table_filtered : forall t f columns,
   wf t -> incl (default_cols t columns) (hdr t) -> NoDup (default_cols t columns) ->
@@ -153,6 +165,8 @@ Proof. exact get_columns_no_rows. Qed.
 Theorem table_with_new_column : forall t new f columns,
   wf t -> incl (default_cols t columns) (hdr t) -> NoDup (default_cols t columns) ->
   default_cols t columns <> [] ->
+  coerce_col (map (fun r => f (proj (hdr t) (default_cols t columns) r)) (rows t)) =
+  map (fun r => f (proj (hdr t) (default_cols t columns) r)) (rows t) ->
   let keep := filter (fun c => negb (str_eqb c new)) (hdr t) in
   exists t', with_new_column t new f columns = Ok t' /\ hdr t' = keep ++ [new] /\ wf t' /\
              rows t' = spec_with_new_column (hdr t) (rows t) new f (default_cols t columns).
@@ -164,6 +178,9 @@ Theorem table_transposed : forall t (new : str) (select : option str) (sah : str
   In sah (hdr t) ->
   length (dedup [] (map (proj (hdr t) [sah]) (rows t))) = nrows t ->
   NoDup (spec_transposed_header (hdr t) (rows t) new sah) ->
+  (forall r, In r (rows t) ->
+     coerce_col (proj (hdr t) (filter (fun c => negb (str_eqb c sah)) (hdr t)) r) =
+     proj (hdr t) (filter (fun c => negb (str_eqb c sah)) (hdr t)) r) ->
   exists t', transposed t new select = Ok t' /\
              hdr t' = spec_transposed_header (hdr t) (rows t) new sah /\ wf t' /\
              rows t' = spec_transposed (hdr t) (rows t) sah.
@@ -173,6 +190,9 @@ Theorem table_appended : forall self (nc : option str) (titled : list (str * tab
   wf self -> hdr self <> [] ->
   (forall tt, In tt titled -> wf (snd tt) /\ same_set (hdr (snd tt)) (hdr self) = true) ->
   match nc with Some n => ~ In n (hdr self) | None => True end ->
+  (forall c, In c (hdr self) ->
+     coerce_col (flat_map (fun tt : str * table => col_of (snd tt) c) titled) =
+     flat_map (fun tt : str * table => col_of (snd tt) c) titled) ->
   exists t', appended self nc titled = Ok t' /\
     hdr t' = (match nc with Some n => [n] | None => [] end) ++ hdr self /\
     wf t' /\
@@ -205,3 +225,63 @@ Theorem csv_carriage_return_refuted : exists d rows,
   delim_okb d = true /\ rows_okb rows = false /\ Forall (fun r => r <> []) rows /\
   csv_read d (fmt_rows d rows) <> Some rows.
 Proof. exact csv_roundtrip_cr_refuted. Qed.
+
+(** ---------------------------------------------------------------- typed round trip: write, then load with type inference
+
+    [classify_text] / [cast_str_to_array] / [load_records] (Model/TableLoad.v)
+    transcribe load_table's type inference: the whole column through int(),
+    then float(), else ast.literal_eval cell by cell.  A float cell [CF m e] is
+    the decimal repr() shows; reading a decimal with at most 15 significant
+    digits back gives the same float (binary64, DBL_DIG = 15: an assumption of
+    the model, see its header). *)
+
+(** what is written for a cell is read back as that cell *)
+Theorem written_int_is_read_back : forall z, classify_text (z_str z) = TInt z.
+Proof. exact classify_z_str. Qed.
+
+Theorem written_float_is_read_back : forall m e,
+  dec_okb m e = true -> classify_text (float_str m e) = TFloat m e.
+Proof. exact classify_float_str. Qed.
+
+Theorem written_bool_is_read_back : forall b : bool,
+  classify_text (if b then s_True else s_False) = TBool b.
+Proof. exact classify_bool. Qed.
+
+Theorem plain_text_stays_text : forall s, plain_textb s = true -> classify_text s = TPlain.
+Proof. exact classify_plain. Qed.
+
+(** per column: 64-bit ints, floats (<= 15 significant digits), bools and plain
+    strings come back with the same type and value *)
+Theorem typed_column_roundtrip : forall col,
+  typed_col_okb col = true -> cast_str_to_array (map csv_cell_text col) = Ok col.
+Proof. exact column_roundtrip. Qed.
+
+(** Table.write(sep=d) then load_table: the SAME TABLE -- header, typed cells,
+    row count -- for every well-formed table whose columns are such columns *)
+Theorem typed_table_roundtrip : forall d t,
+  delim_okb d = true -> wf t -> hdr t <> [] ->
+  forallb field_okb (hdr t) = true ->
+  forallb typed_col_okb (cols t) = true ->
+  write_then_load d (write_records t) = Ok t.
+Proof. exact table_typed_roundtrip. Qed.
+
+(** CONVENTION of the type inference (required by the pinned unit tests, not a
+    defect): text that looks like numbers is read as numbers -- a column of the
+    strings "007", "010" comes back as the ints 7, 10; so the plain-text side
+    condition on string columns is necessary ... *)
+Theorem numeric_looking_text_read_as_numbers_convention : exists col,
+  Forall (fun c => exists s, c = CS s) col /\
+  cast_str_to_array (map csv_cell_text col) = Ok [CI 7; CI 10] /\
+  cast_str_to_array (map csv_cell_text col) <> Ok col.
+Proof. exact numeric_text_not_preserved. Qed.
+
+(** ... it stays text next to real text; ints next to floats become floats;
+    "True" / "None" inside a text column become True / None *)
+Theorem leading_zero_text_next_to_text : cast_str_to_array [[48;48;55]; [120]] = Ok [CS [48;48;55]; CS [120]].
+Proof. exact cast_leading_zeros_text. Qed.
+
+Theorem int_text_next_to_float_text : cast_str_to_array [[49]; [50;46;53]] = Ok [CF 1 0; CF 25 (-1)].
+Proof. exact cast_int_float. Qed.
+
+Theorem literal_text_in_text_column : cast_str_to_array [s_True; [120]; s_None] = Ok [CB true; CS [120]; CN].
+Proof. exact cast_literals_in_text. Qed.
